@@ -4,6 +4,7 @@ import PqModel.MergeRanges
 import PqModel.Compare
 import PqModel.MergeRefine
 import PqModel.MergeZero
+import PqModel.MergeRetry
 
 namespace Driver.Ops.C09
 open Driver PqModel.Merge PqModel.Compare
@@ -90,6 +91,17 @@ def handle (toks : List String) : Option String :=
       let r := Reader.new (tagInputs ins) rs
       let res := sessionS r bs
       s!"ok {if res.2.2 then 1 else 0} {"|".intercalate (res.1.map showBatch)} {showList toString res.2.1}"
+    | _, _, _ => "bad-op"
+  | ["merge.runr", ins, bs, rs] => some <|
+    -- refill streams with `(0, nil)` answers (entry 0): the retry loop of `read` skips them
+    -- (MergeRetry.lean `readE_squash`), the session runs on the squashed streams
+    match parseLists? parseInt? ins, parseList? parseNat? bs, parseLists? parseNat? rs with
+    | some ins, some bs, some rs =>
+      if rs.any (fun l => !(decide (∀ i, i < l.length → zeroRun (l.drop i) ≤ 100))) then "stall"
+      else
+        let r := Reader.new (tagInputs ins) (rs.map squashSizes)
+        let res := sessionS r bs
+        s!"ok {if res.2.2 then 1 else 0} {"|".intercalate (res.1.map showBatch)} {showList toString res.2.1}"
     | _, _, _ => "bad-op"
   | ["merge.runz", ins, bs, rs] => some <|
     match parseLists? parseInt? ins, parseList? parseNat? bs, parseLists? parseNat? rs with
